@@ -87,8 +87,8 @@ PROPS = {
     },
     "C02": {
         "stages": [sim(25, 480), real(14, 180)],
-        "rule": "histories of 3-12 operations over generated projects (2-10 steps, discovered deps, restat-like and non-writing commands): edit/touch/delete sources, delete/touch/overwrite outputs, change command text or rspfile content, add/remove steps and edges, change a command's include set (with an edit of a file it reads), builds of random target subsets with random -j/-k/completion policy and failing commands; after every successful invocation the content of every output in the closure of the requested targets is compared with the reference model's clean-build content, and the started set must contain the model's dirty set; non-trivial = history with >= 2 builds and an edit in between that dirties a strict non-empty subset of the wanted steps; distinct by hash(operations, event sequences)",
-        "must_observe": ["events", "outputs_compared"],
+        "rule": "histories of 3-12 operations over generated projects (2-10 steps, discovered deps, restat-like and non-writing commands): edit/touch/delete sources, delete/touch/overwrite outputs, change command text or rspfile content, add/remove steps and edges, change a command's include set (with an edit of a file it reads), builds of random target subsets with random -j/-k/completion policy and failing commands; every fifth history is over a generated manifest (C17's operations), half of those in the include-split layout with a generator that rewrites the included file and leaves an unchanged top-level manifest untouched; after every successful invocation the content of every output in the closure of the requested targets is compared with the reference model's clean-build content, and the started set must contain the model's dirty set; non-trivial = history with >= 2 builds and an edit in between that dirties a strict non-empty subset of the wanted steps; distinct by hash(operations, event sequences)",
+        "must_observe": ["events", "outputs_compared", "reloads_with_untouched_manifest"],
         "assumptions": SIM_ASSUME + ["a content change comes with an mtime change (the harness's logical clock), nothing writes the tree during an invocation, phony outputs are never dirtying inputs"],
     },
     "C03": {
